@@ -127,8 +127,10 @@ def twin_pairs(rnd, src, np1, generic):
         ("setindex-column", N("setindex", base, col=col), N("setindex", base, col=col2)),
         ("setindex-frame", N("setindex", S(src), col=col), N("setindex", N("elem", S(src), f="neg"), col=col)),
         ("sort-then-setindex", N("sort", base, by=[col], asc=True), N("setindex", base, col=col)),
-        ("len-selection", N("len", N("col", N("parts", S(src), P=[i]), col="a")), N("len", N("col", N("parts", S(src), P=[j]), col="a"))),
-        ("len-selection-elem", N("len", N("elem", N("parts", S(src), P=[i]), f="add1")), N("len", N("elem", N("parts", S(src), P=[j]), f="add1"))),
+        # equally many partitions selected, first versus last: from_pandas gives them different row counts
+        ("len-selection", N("len", N("col", N("parts", S(src), P=[0]), col="a")), N("len", N("col", N("parts", S(src), P=[np1 - 1]), col="a"))),
+        ("len-selection-elem", N("len", N("elem", N("parts", S(src), P=[0, 1]), f="add1")), N("len", N("elem", N("parts", S(src), P=[np1 - 2, np1 - 1]), f="add1"))),
+        ("len-selection-any", N("len", N("col", N("parts", S(src), P=[i]), col=col)), N("len", N("col", N("parts", S(src), P=[j]), col=col))),
         ("parts-selection", N("elem", N("parts", S(src), P=[i]), f="add1"), N("elem", N("parts", S(src), P=[j]), f="add1")),
         ("len-projection", N("len", S(src)), N("len", N("filter", S(src), pred={"p": "cmp", "col": "b", "f": "ge", "v": 1}))),
         ("repsize-frame", N("repsize", S(src), size="250B"), N("repsize", N("proj", S(src), cols=["a"]), size="250B")),
@@ -196,12 +198,19 @@ def make_pool(hseed, np1, nfiles, generic):
     sorts = lambda kind: kind.startswith(("sort", "setindex"))
     for n, (kind, a, b) in enumerate(pick("G1", sorts if sort_heavy else (lambda kind: kind.startswith(("sort", "setindex", "repsize", "len-projection"))), 2)):
         put(1 + 2 * n, kind, a), put(2 + 2 * n, kind, b)
-    for n, (kind, a, b) in enumerate(pick("T1", sorts if sort_heavy else (lambda kind: True), 4)):
+    if sort_heavy:
+        chosen = pick("T1", sorts, 4)
+    else:       # one pair about lengths / selections, one about partition sizes, two of any kind
+        chosen = pick("T1", lambda kind: kind.startswith(("len-", "parts-")), 1) + pick("T1", lambda kind: kind.startswith(("repsize", "repart")), 1) + pick("T1", lambda kind: True, 2)
+    for n, (kind, a, b) in enumerate(chosen):
         if kind == "generic":
             put(5 + 2 * n, kind, a["q"], a["sc"]["ord"], a["sc"]["idx"]), put(6 + 2 * n, kind, b["q"], b["sc"]["ord"], b["sc"]["idx"])
         else:
             put(5 + 2 * n, kind, a), put(6 + 2 * n, kind, b)
-    for n, (kind, a, b) in enumerate(rnd.sample(pq_pairs(rnd, nfiles), 2)):
+    pqs = pq_pairs(rnd, nfiles)
+    stats_based = [p for p in pqs if p[0] in ("pq-divisions", "pq-len", "pq-parts", "pq-len-parts", "pq-arrow", "pq-arrow-len")]     # answered from file statistics
+    first = rnd.choice(stats_based)
+    for n, (kind, a, b) in enumerate([first, rnd.choice([p for p in pqs if p[0] != first[0]])]):
         put(13 + 2 * n, kind, a), put(14 + 2 * n, kind, b)
     return pool
 
@@ -332,6 +341,7 @@ def run_history(job):
     lru = {}
     keyids = {}
     refs = {}
+    gen = {}
 
     def sink(kind, f):
         if kind == "cache":
@@ -339,12 +349,14 @@ def run_history(job):
         elif kind == "instance":
             if f["hit"]:
                 stats["instance_hit"] += 1
+        elif kind == "lru_new":
+            gen[f["cache"]] = gen.get(f["cache"], 0) + 1          # id() of a collected LRU may be reused by a new one
         elif kind in ("lru_get", "lru_set"):
             ev = {"op": kind[4:], "key": _key_id(f["key"], keyids), "size": int(f["size"]), "cap": int(f.get("maxsize", 0) or 0),
                   "evicted": 0 if f.get("evicted") is None else _key_id(f["evicted"], keyids)}
             if ev["evicted"]:
                 stats["evictions"] += 1
-            lru.setdefault(str(f["cache"]), []).append(ev)
+            lru.setdefault(f"{f['cache']}.{gen.get(f['cache'], 0)}", []).append(ev)
 
     _verif.set_sink(sink)
     obs = []
